@@ -1,4 +1,5 @@
-(* C02 -- VP8 keyframe reconstruction is bit-exact for every valid stream and size.          (PARTIAL)
+(* C02 -- VP8 keyframe reconstruction is bit-exact for every valid stream and size.
+   (FULL up to four stated, decidable side conditions: module D, theorem D.decode_frame_is_spec, at the end of this file)
    Reference: Spec.VP8.decode, an executable Gallina transcription of libwebp 1.3.1's key-frame decoder (bit-exact with the
    RFC 6386 reference on valid streams), validated against the compiled libwebp on every run (harness c02spec).
    Proved here, re-checked against the current source on every run because Gen.* is regenerated from /repo/src:
@@ -30,8 +31,14 @@
        by recording hooks: planes before and after the filter pass) -- per-macroblock prediction incl. the 16-sub-block loop and the
        write-back, the loop-filter pass (run once after all macroblocks, raster order), the crop -- fed the reference's parse results
        returns exactly the planes of Spec.VP8.decode_frame (X.decode_frame_recon_is_spec).
-   NOT proved: the last composition step (F.parse_frame_refines's per-macroblock relation implies X's frame_rel), i.e. one theorem
-   `decode_frame = Spec.VP8.decode`; (formerly:) the workspace / border
+     * (module D) THE WHOLE FRAME DECODER: for every payload the reference decodes (Spec.VP8.decode_frame data = Some f), under four
+       decidable side conditions (reserved colour-space bit clear; first partition and token partitions do not start with byte 0xFF
+       -- the C15 hypothesis; per segment the loop-filter base level within 0..63 -- the documented clamp difference, necessity
+       machine-checked by D.decode_frame_lf_clamp_refuted), the Model of Vp8Decoder::decode_frame (Model/Vp8Decode.v = parse_frame, then
+       the reconstruction half; tied to the code by the vp8decode / vp8frame / vp8recon correspondences) returns exactly the reference
+       frame: same size, same Y, U, V samples.  The reference being one byte stricter than the crate about truncated partitions is
+       proved, so no "stays inside every partition" hypothesis remains.
+   (Formerly not proved, now subsumed:) the workspace / border
    bookkeeping = frame-addressed reconstruction and per-macroblock filter traversal: decided on every run by the
    whole-frame correspondence implementation = Spec.VP8.decode on generated key frames (harness c02), and on libwebp. *)
 From Coq Require Import ZArith List Lia.
@@ -43,6 +50,12 @@ From WebP Require Model.Vp8Frame Proofs.VP8_frame_base Proofs.VP8_frame_mono Pro
   Proofs.VP8_frame_loop Proofs.VP8_frame_main.
 From WebP Require Model.Vp8Predict Proofs.VP8_predict_base Proofs.VP8_predict_sub Proofs.VP8_predict_border Proofs.VP8_predict.
 From WebP Require Model.Vp8Recon Proofs.VP8_recon_base Proofs.VP8_recon_plane Proofs.VP8_recon_frame Proofs.VP8_recon_filter Proofs.VP8_recon_pass Proofs.VP8_recon_main Proofs.VP8_recon_example.
+From WebP Require Model.Vp8Decode Proofs.VP8_decode_starved Proofs.VP8_decode_shape Proofs.VP8_decode_refwf Proofs.VP8_decode_bridge
+     Proofs.VP8_decode_main Proofs.VP8_decode_planes Proofs.VP8_decode_example Proofs.ReadImage_lossy.
+From WebP Require Lib.Res Spec.BoolDec Model.Vp8Parse Model.Vp8Frame Model.Vp8Recon Proofs.C15_model Proofs.VP8_parse_base Proofs.VP8_parse_coeffs Proofs.VP8_frame_base Proofs.VP8_frame_main Proofs.VP8_recon_mb Proofs.VP8_frame_hdrthm Proofs.VP8_frame_loop
+  Proofs.VP8_recon_frame Proofs.VP8_recon_filter Proofs.VP8_recon_example.
+From WebP Require Model.Vp8Decode Proofs.VP8_decode_starved Proofs.VP8_decode_shape Proofs.VP8_decode_refwf Proofs.VP8_decode_bridge
+  Proofs.VP8_decode_main Proofs.VP8_decode_planes Proofs.VP8_decode_example Proofs.ReadImage_lossy.
 Import ListNotations.
 Open Scope Z_scope.
 
@@ -752,3 +765,137 @@ Module X.
   Proof. exact VP8_recon_example.filter_level_clamp_refuted. Qed.
 
 End X.
+
+(* ---------------- the whole frame decoder: Vp8Decoder::decode_frame = Spec.VP8.decode_frame (Model/Vp8Decode.v) ---------------- *)
+Module D.
+  Import Lib.Res Spec.BoolDec Spec.VP8 Model.Vp8Parse Model.Vp8Frame Model.Vp8Recon Proofs.VP8_frame_hdrthm Proofs.VP8_frame_loop
+    Proofs.VP8_recon_frame Proofs.VP8_recon_filter Proofs.VP8_recon_example
+    Proofs.VP8_decode_starved Proofs.VP8_decode_shape Proofs.VP8_decode_refwf Proofs.VP8_decode_bridge Proofs.VP8_decode_main Proofs.VP8_decode_planes
+    Proofs.VP8_decode_example Proofs.ReadImage_lossy.
+
+  (* MAIN: for every payload the reference decodes, under the four decidable side conditions of decode_hyps_b (reserved colour-space bit clear;
+     first partition and token partitions do not start with 0xFF; per segment the loop-filter base level within 0..63), the Model of
+     Vp8Decoder::decode_frame returns exactly the reference frame: same size, same Y / U / V samples *)
+  Theorem decode_frame_is_spec :
+    forall (data : list Z) (f : frame),
+           Forall byte data -> C15_model.len data < 2 ^ 63 ->
+           decode_frame data = Some f ->
+           decode_hyps_b data = true ->
+           Vp8Decode.decode_frame data = Ok (fr_w f, fr_h f, fr_y f, fr_u f, fr_v f).
+  Proof. exact VP8_decode_main.decode_frame_is_spec. Qed.
+
+  Theorem decode_is_spec :
+    forall (data : list Z) (w h : Z) (yp up vp : list Z),
+           Forall byte data -> C15_model.len data < 2 ^ 63 ->
+           decode data = Some (w, h, yp, up, vp) ->
+           decode_hyps_b data = true ->
+           Vp8Decode.decode_frame data = Ok (w, h, yp, up, vp).
+  Proof. exact VP8_decode_main.decode_is_spec. Qed.
+
+  (* the parsing half never fails on a stream the reference decodes (the reference rejects starved partitions and is one byte stricter than the
+     crate), and hands on what the reconstruction half needs *)
+  Theorem parse_frame_of_spec :
+    forall (data : list Z) (f : frame) (h : header) (s : bstate) (parts : list (list Z)),
+           Forall byte data -> C15_model.len data < 2 ^ 63 ->
+           parse_header data = Some (h, s, parts) -> decode_frame data = Some f ->
+           h_color_space h = 0 -> no_ff_start (first_partition data) = true -> forallb no_ff_start parts = true ->
+           let '(modes, s') := parse_modes h s in
+           let '(res, ps') := parse_tokens h modes (map bd_init parts) in
+           exists recs v, parse_frame data = Ok (recs, v) /\ frame_rel (mb_w h) recs modes res /\
+                          dims_rel (Vp8Decode.recon_header v) h /\ filt_rel (Vp8Decode.recon_header v) h /\ header_wf h.
+  Proof. exact VP8_decode_main.parse_frame_of_spec. Qed.
+
+  (* over-read (the crate's failure condition) implies libwebp's eof flag, on every state of a reference run *)
+  Theorem over_read_starved : forall (data : list Z) (s : bstate), sinv data s -> VP8_parse_base.over_read data s -> starved s = true.
+  Proof. exact VP8_decode_starved.over_read_starved. Qed.
+
+  Theorem decoded_not_over_read :
+    forall (data : list Z) (h : header) (s : bstate) (parts : list (list Z)) (f : frame),
+           parse_header data = Some (h, s, parts) -> decode_frame data = Some f ->
+           (h_num_parts h = 1 \/ h_num_parts h = 2 \/ h_num_parts h = 4 \/ h_num_parts h = 8) ->
+           length parts = Z.to_nat (h_num_parts h) -> 0 < mb_h h ->
+           let '(modes, s') := parse_modes h s in
+           let '(res, ps') := parse_tokens h modes (map bd_init parts) in
+           ~ VP8_parse_base.over_read (first_partition data) s' /\ ~ parts_over parts ps'.
+  Proof. exact VP8_decode_starved.decoded_not_over_read. Qed.
+
+  (* the record of a macroblock is well typed whenever read_macroblock_header returns Ok (the from_i8 checks of the Model) *)
+  Theorem parse_frame_shape : forall (data : list Z) (recs : list (MacroBlock * list Z)) (v : Vp8), parse_frame data = Ok (recs, v) -> recs_shape recs.
+  Proof. exact VP8_decode_shape.parse_frame_shape. Qed.
+
+  (* the reference parse is well formed for every header with legal tables: row lengths, segment ids, 16/4/4 blocks, coefficients within 2^29 *)
+  Theorem parse_modes_facts : forall (h : header) (s : bstate), Forall (mrow_ok h) (fst (parse_modes h s)).
+  Proof. exact VP8_decode_refwf.parse_modes_facts. Qed.
+  Theorem parse_tokens_facts :
+    forall (h : header) (v : Vp8) (modes : list (list mbmode)) (parts : list bstate),
+           VP8_parse_coeffs.tables_ok (h_probas h) -> token_nodes_of (h_probas h) = Ok (v_token_probs v) ->
+           Forall (Forall res_wf) (fst (parse_tokens h modes parts)).
+  Proof. exact VP8_decode_refwf.parse_tokens_facts. Qed.
+
+  (* the relations of the two halves fit *)
+  Theorem mb_bridge :
+    forall (m : mbmode) (r : mbres) (mb : MacroBlock) (blocks : list Z),
+           VP8_frame_loop.mb_rel m r (mb, blocks) -> rec_shape mb -> seg_ok m -> res_wf r ->
+           VP8_recon_mb.mb_rel mb m /\ VP8_recon_mb.res_rel blocks r /\ seg_rel mb m r.
+  Proof. exact VP8_decode_bridge.mb_bridge. Qed.
+  Theorem frame_bridge :
+    forall (h : header) (mss : list (list mbmode)) (rss : list (list mbres)) (recs : list (MacroBlock * list Z)),
+           0 <= mb_w h -> rows_rel mss rss recs -> recs_shape recs -> Forall (mrow_ok h) mss -> Forall (Forall res_wf) rss ->
+           frame_rel (mb_w h) recs mss rss.
+  Proof. exact VP8_decode_bridge.frame_bridge. Qed.
+  Theorem header_bridge :
+    forall (data : list Z) (h : header) (s : bstate) (parts : list (list Z)) (vh v : Vp8),
+           parse_header data = Some (h, s, parts) -> header_rel h vh -> same_hdr vh v ->
+           dims_rel (Vp8Decode.recon_header v) h /\ filt_rel (Vp8Decode.recon_header v) h.
+  Proof. exact VP8_decode_bridge.header_bridge. Qed.
+  Theorem lf_valid_bridge : forall h : header, header_wf h -> lf_base_ok h -> lf_valid h.
+  Proof. exact VP8_decode_bridge.lf_valid_bridge. Qed.
+
+  (* the computable check wf_frame_b of recon_of_spec_parse is a theorem for every stream the reference decodes *)
+  Theorem spec_parse_wf_b :
+    forall (data : list Z) (f : frame) (h : header) (s : bstate) (parts : list (list Z)),
+           Forall byte data -> C15_model.len data < 2 ^ 63 ->
+           parse_header data = Some (h, s, parts) -> decode_frame data = Some f ->
+           h_color_space h = 0 -> no_ff_start (first_partition data) = true -> forallb no_ff_start parts = true ->
+           let '(modes, s') := parse_modes h s in
+           let '(res, ps') := parse_tokens h modes (map bd_init parts) in
+           wf_frame_b (mb_w h) modes res = true.
+  Proof. exact VP8_decode_main.spec_parse_wf_b. Qed.
+
+  (* the planes of the reference are well formed, unconditionally: sizes, sample counts, bytes *)
+  Theorem planes_ok_of_spec :
+    forall (data : list Z) (w h : Z) (yp up vp : list Z), decode data = Some (w, h, yp, up, vp) -> planes_ok w h yp up vp.
+  Proof. exact VP8_decode_planes.planes_ok_of_spec. Qed.
+
+  (* non-vacuity: two real key frames (a gen_vp8 frame program, a libwebp encode), hypotheses discharged, conclusion from the theorem *)
+  Theorem ex_frame_decodes :
+    match decode VP8_recon_example.ex_frame with
+    | Some (w, h, yp, up, vp) =>
+        Vp8Decode.decode_frame VP8_recon_example.ex_frame = Ok (w, h, yp, up, vp) /\ planes_ok w h yp up vp /\ (w, h) = (7, 27) /\
+        length yp = 189%nat /\ length up = 56%nat
+    | None => False
+    end.
+  Proof. exact VP8_decode_example.ex_frame_decodes. Qed.
+  Theorem ex_payload_decodes :
+    match decode VP8_frame_main.ex_payload with
+    | Some (w, h, yp, up, vp) =>
+        Vp8Decode.decode_frame VP8_frame_main.ex_payload = Ok (w, h, yp, up, vp) /\ planes_ok w h yp up vp /\ (w, h) = (39, 2)
+    | None => False
+    end.
+  Proof. exact VP8_decode_example.ex_payload_decodes. Qed.
+
+  (* the fourth side condition is necessary: a whole 7 x 16 key frame (66 bytes) of the documented class lf_ambiguous on which Model (= crate)
+     and Spec (= libwebp) return different luma planes, the other three conditions holding *)
+  Theorem decode_frame_lf_clamp_refuted :
+    match parse_header lf_witness with
+    | Some (h, s, parts) =>
+        (h_color_space h =? 0) && no_ff_start (first_partition lf_witness) && forallb no_ff_start parts = true /\ lf_base_okb h = false
+    | None => False
+    end /\
+    match Vp8Decode.decode_frame lf_witness, decode lf_witness with
+    | Ok (w, h, yp, up, vp), Some (w', h', yp', up', vp') =>
+        (w, h, w', h') = (7, 16, 7, 16) /\ zl_eqb up up' = true /\ zl_eqb vp vp' = true /\ zl_eqb yp yp' = false
+    | _, _ => False
+    end.
+  Proof. exact VP8_decode_example.decode_frame_lf_clamp_refuted. Qed.
+End D.
